@@ -191,23 +191,32 @@ def scanReal (radix : Nat) : Nat → RealScan → Text → RealScan
       if st.hasDot then { st with bad := true } else scanReal radix (i + 1) { st with hasDot := true } cs
     else scanReal radix (i + 1) st cs
 
-/-- `parse_real` -/
-def parseReal (radix : Nat) (s : Text) : Option RealLit :=
+/-- the four special spellings `parse_real` recognises first -/
+def specialReal (s : Text) : Option RealLit :=
   if s == t!"-inf.0" then some (.inf true)
   else if s == t!"+inf.0" then some (.inf false)
   else if s == t!"+nan.0" || s == t!"-nan.0" then some .nan
-  else
-    let sc := scanReal radix 0 {} s
-    if sc.bad then none
-    else if sc.hasExp || sc.hasDot then
-      if radix != 10 then none
-      else if isRustFloat s then some (.flo s) else none
-    else match sc.frac with
-      | some p =>
-        match parseIntRadix radix (s.take p), parseIntRadix radix (s.drop (p + 1)) with
-        | some n, some d => some (.rat n d)
-        | _, _ => none
-      | none => (parseIntRadix radix s).map .int
+  else none
+
+/-- `parse_real` after the special spellings -/
+def parseRealPlain (radix : Nat) (s : Text) : Option RealLit :=
+  let sc := scanReal radix 0 {} s
+  if sc.bad then none
+  else if sc.hasExp || sc.hasDot then
+    if radix != 10 then none
+    else if isRustFloat s then some (.flo s) else none
+  else match sc.frac with
+    | some p =>
+      match parseIntRadix radix (s.take p), parseIntRadix radix (s.drop (p + 1)) with
+      | some n, some d => some (.rat n d)
+      | _, _ => none
+    | none => (parseIntRadix radix s).map .int
+
+/-- `parse_real` -/
+def parseReal (radix : Nat) (s : Text) : Option RealLit :=
+  match specialReal s with
+  | some r => some r
+  | none => parseRealPlain radix s
 
 /-- indices of the sign characters as `split_into_complex` collects them (a character after
     `e`/`E` is skipped); `none` when there are more than two. -/
